@@ -117,6 +117,7 @@ func (q *rpcQueue) Pop(ctx context.Context) (*RPC, error) {
 		// to this Pop call will return from the function. Note that this can
 		// be expensive, if there are too many waiting routines.
 		q.dataAvailable.Broadcast()
+		verifYield(verifPopCancelBroadcastDone)
 	})
 	defer unregisterAfterFunc()
 
@@ -126,6 +127,7 @@ func (q *rpcQueue) Pop(ctx context.Context) (*RPC, error) {
 			return nil, ErrQueueCancelled
 		default:
 		}
+		verifYield(verifPopBeforeWait)
 		q.dataAvailable.Wait()
 		// It can receive a signal because the queue is closed.
 		if q.closed {
